@@ -2677,6 +2677,13 @@ class UnpackedValue(Value):
             return [(True, AnyValue(AnySource.generic_argument))]
         return None
 
+    def substitute_typevars(self, typevars: TypeVarMap) -> Value:
+        return UnpackedValue(self.value.substitute_typevars(typevars))
+
+    def walk_values(self) -> Iterable[Value]:
+        yield self
+        yield from self.value.walk_values()
+
 
 @dataclass(frozen=True)
 class VariableNameValue(AnyValue):
